@@ -17,6 +17,11 @@ use std::sync::Arc;
 /// Shard-independent inputs: every worker process serialises the same mappings.
 fn gen_input(seed: u64, case: u64, slow: bool) -> (String, Vec<u8>) {
     let mut rng = Rng::new(mix(&[seed, fnv1a(b"C14-shared"), case]));
+    if case == 0 && !slow {
+        // more member records than any plausible retained-buffer or table-size threshold (2^15)
+        let n = 34_000 + rng.below(2_000);
+        return ("ast-huge-group".into(), pgvcore::ast::huge_group_ast(&mut rng, n).print_lf());
+    }
     match case % 4 {
         0 | 1 => {
             let mut cfg = GenCfg::default();
